@@ -396,7 +396,7 @@ def correspond(ctx):
     bits = []
     for z, sym in iupac():
         try:
-            for x in c18_state.state_grid_cases(sym):
+            for x in c18_state.state_grid_cases(sym, pack_all_h=not ctx.quick):
                 pred = c18_state.grid_pred(x)
                 key, detail, ok = c18_state.grid_detail(x)
                 ctx.count((pred, key))
